@@ -167,6 +167,7 @@ type absArt struct {
 type absState struct {
 	Cfgc     map[string]int    `json:"cfgc"`
 	Prof     int               `json:"prof"`
+	Profp    bool              `json:"profp"` // the shared profile file exists
 	Par      map[string]string `json:"par"`
 	Present  []string          `json:"present"` // the entities that have a configuration file
 	CfgNewer map[string]bool   `json:"cfgNewer"`
@@ -208,6 +209,9 @@ type repoWorld struct {
 	gone map[string]bool // entities whose configuration file the user deleted
 	prof int
 }
+
+// the shared profile file exists (read off the directory: the user may delete it and put it back)
+func (w *repoWorld) profPresent() bool { _, ok := w.fs.Files[repoProfilePath]; return ok }
 
 func (w *repoWorld) children(e string) []string {
 	var out []string
@@ -271,7 +275,7 @@ func dnContent(raw []byte) (int, bool) {
 }
 
 func (w *repoWorld) project(ht *hashTable) (*absState, map[string]*artFacts) {
-	s := &absState{Prof: w.prof, Cfgc: map[string]int{}, Par: map[string]string{}, CfgNewer: map[string]bool{}, Mt: []string{}, Present: []string{}, Art: map[string]absArt{}, Flags: []string{}}
+	s := &absState{Prof: w.prof, Profp: w.profPresent(), Cfgc: map[string]int{}, Par: map[string]string{}, CfgNewer: map[string]bool{}, Mt: []string{}, Present: []string{}, Art: map[string]absArt{}, Flags: []string{}}
 	facts := map[string]*artFacts{}
 	certs := map[string]*project.Cert{}
 	pems := map[string]project.PemFile{}
@@ -738,6 +742,10 @@ func (x *repoExec) perform(w *repoWorld, pre *absState, preFacts map[string]*art
 	case "EditProfile":
 		nw.prof = a.C
 		nw.fs.Put(repoProfilePath, repoProfileText(a.C))
+	case "RemoveProfile":
+		nw.fs.Remove(repoProfilePath)
+	case "AddProfile":
+		nw.fs.Put(repoProfilePath, repoProfileText(nw.prof))
 	case "Expire":
 		// time passes: the same certificate, but its validity has ended; the file keeps its modification time
 		old := nw.fs.Files[art]
@@ -977,7 +985,13 @@ func (x *repoExec) envActions(s *absState, enabled map[string]bool, contents int
 			}
 		}
 	}
-	if enabled["EditProfile"] {
+	if enabled["RemoveProfile"] && s.Profp {
+		out = append(out, repoAct{Name: "RemoveProfile"})
+	}
+	if enabled["AddProfile"] && !s.Profp {
+		out = append(out, repoAct{Name: "AddProfile"})
+	}
+	if enabled["EditProfile"] && s.Profp {
 		for c := 0; c < contents; c++ {
 			if c != s.Prof {
 				out = append(out, repoAct{Name: "EditProfile", C: c})
